@@ -25,14 +25,39 @@ def _alarm(signum, frame):
     raise CaseTimeout()
 
 
-def with_alarm(fn, *a):
+_DEPTH = [0]
+
+
+def with_alarm(fn, *a, seconds=None):
+    """run fn under a SIGALRM budget; re-entrant: an inner call runs under the outer budget"""
+    if _DEPTH[0]:
+        return fn(*a)
     old = signal.signal(signal.SIGALRM, _alarm)
-    signal.alarm(CASE_SECONDS)
+    _DEPTH[0] = 1
+    signal.alarm(seconds or CASE_SECONDS)
     try:
         return fn(*a)
     finally:
         signal.alarm(0)
+        _DEPTH[0] = 0
         signal.signal(signal.SIGALRM, old)
+
+
+def begin_alarm(seconds):
+    """explicit form of with_alarm for long bodies: tok = begin_alarm(n) ... finally: end_alarm(tok)"""
+    if _DEPTH[0]:
+        return None
+    old = signal.signal(signal.SIGALRM, _alarm)
+    _DEPTH[0] = 1
+    signal.alarm(seconds)
+    return (old,)
+
+
+def end_alarm(tok):
+    if tok is not None:
+        signal.alarm(0)
+        _DEPTH[0] = 0
+        signal.signal(signal.SIGALRM, tok[0])
 
 
 def glob_vs_spec(item):
@@ -44,7 +69,7 @@ def glob_vs_spec(item):
         for els, flags in cases:
             txt = P.render(els)
             follow = bool(flags & G.L)
-            if cyclic and (follow or (flags & G.GL and ('***' in txt or flags & G.X))):
+            if cyclic and (follow or (flags & G.GL and '***' in txt)):
                 continue           # the property exempts FOLLOW / *** on cyclic trees
             try:
                 mode = LC.mode_from_flags(flags | G.U, True)
@@ -93,7 +118,8 @@ def small_patterns():
             mk([alt]), mk([alt, star]), mk([br]), mk([gs, br], trail=True), mk([d, (L('s'),), star]), mk([star, (L('s'),), gs]), mk([gs, (L('s'),), gs, (L('y'),)]),
             mk([gs, d, gs, (L('y'),)]), mk([d, gs, (L('s'),), gs, (L('y'),)]), mk([gs, (L('s'),), gs, (L('y'), L('2'))]), mk([gs, (L('x'),)], trail=False), mk([star], trail=True), mk([a], trail=True), mk([lf], trail=True), mk([ld], trail=True),
             mk([(L('d'), L('a'), L('n'), L('g'))]), mk([gs, (L('d'), L('a'), L('n'), L('g'))]), mk([d, star], dbl=True), mk([(L('S'), L('u'), L('b')), star]),
-            mk([(L('n'), L('o'), L('n'), L('e'))]), mk([a, (L('r'),), gs, (L('t'),)]), mk([gs, (L('r'),), gs, (L('t'),)]), mk([gs, (L('l'), L('r')), gs])]
+            mk([(L('n'), L('o'), L('n'), L('e'))]), mk([a, (L('r'),), gs, (L('t'),)]), mk([gs, (L('r'),), gs, (L('t'),)]), mk([gs, (L('l'), L('r')), gs]),
+            mk([gsl, a, gs, (L('t'),)]), mk([gsl, d, gs, (L('y'),)]), mk([gsl, gs, (L('t'),)])]
     return pats
 
 
@@ -108,7 +134,7 @@ def globmatch_vs_glob(item):
         for idx, (els, flags, excl) in enumerate(cases):
             txt = P.render(els)
             follow = bool(flags & G.L)
-            if cyclic and (follow or (flags & G.GL and ('***' in txt or flags & G.X))):
+            if cyclic and (follow or (flags & G.GL and '***' in txt)):
                 continue
             try:
                 # the root is given as root_dir or (every third case) as dir_fd
@@ -166,7 +192,7 @@ def wellformed_and_roots(item):
     with trees.Tree(spec) as t:
         for txt, flags in cases:
             follow = bool(flags & G.L)
-            if cyclic and (follow or (flags & G.GL and ('***' in txt or flags & G.X))):
+            if cyclic and (follow or (flags & G.GL and '***' in txt)):
                 continue
             base = dict(tree=tname, pattern=txt, flags=flags, fl=LC.flagnames(flags))
             try:
@@ -270,7 +296,7 @@ def symlink_discipline(item):
         for txt, flags in cases:
             follow = bool(flags & G.L)
             base = dict(tree=tname, pattern=txt, flags=flags, fl=LC.flagnames(flags))
-            if cyclic and (follow or (flags & G.GL and ('***' in txt or flags & G.X))):
+            if cyclic and (follow or (flags & G.GL and '***' in txt)):
                 continue
             scanned = []
 
